@@ -282,6 +282,50 @@ impl TreeSys for Fam {
 }
 
 /// long structured series (DESIGN 5.14): every lag of the band around the (large) length, long null runs
+/// the lazy results consumed through `nth(j)` first (round 11): the items are those of the full result from
+/// position j on, and the length announced after the call is the number of items still to come
+fn check_nth(word: &[u8], alpha: &[X], ctx: &mut Ctx) {
+    let fam = "maps-nth";
+    let x = decode(word, alpha);
+    let len = x.len();
+    ctx.fam(fam).states += 1;
+    if len == 0 {
+        return;
+    }
+    ctx.nontrivial(fam, hash_bytes(word));
+    let v: Vec<f64> = enc_vec(&x);
+    for op in ops(len, alpha, true) {
+        let full = match run_map_num::<Vec<f64>, f64>(&op, &v) {
+            Some(Outcome::Ok(d)) => d.cells,
+            _ => continue, // panics and non-existent cells: the main family
+        };
+        for j in 0..=len {
+            ctx.transitions += 1;
+            let got = mc_adapt::maps::with_nth(j, || run_map_num::<Vec<f64>, f64>(&op, &v));
+            let got = match got {
+                Some(g) => g,
+                None => continue,
+            };
+            ctx.eval(fam, match &got { Outcome::Ok(d) => mix(hash_cells(&d.cells), d.hint.0 as u64), Outcome::Panic(m) => hash_bytes(m.as_bytes()) });
+            let want: Vec<Cell> = full.iter().skip(j).cloned().collect();
+            let remaining = want.len().saturating_sub(1);
+            let ok = matches!(&got, Outcome::Ok(d) if cells_eq(&d.cells, &want, exact_eq) && d.hint == (remaining, Some(remaining)));
+            if !ok {
+                ctx.violation(Violation {
+                    entry: format!("{} after nth({j})", op.name()),
+                    finding: None,
+                    size: len * 100 + j,
+                    case: json!({"family": fam, "word": word, "series": json_word(&x), "op": op.show(), "nth": j}),
+                    expected: format!("items {} ; announced length after nth = {remaining}", truncate(&show_cells(&want), 120)),
+                    got: match &got { Outcome::Ok(d) => format!("items {} ; size_hint after nth = {:?}", truncate(&show_cells(&d.cells), 120), d.hint), Outcome::Panic(m) => format!("PANIC({})", truncate(m, 80)) },
+                });
+            } else {
+                ctx.traces += 1;
+            }
+        }
+    }
+}
+
 fn maps_long(thorough: bool, threads: usize, alpha: &[X]) -> Ctx {
     let lens: Vec<usize> = if thorough { vec![24, 40, 130] } else { vec![24] };
     let mut items: Vec<(String, Vec<X>)> = vec![];
@@ -405,6 +449,8 @@ fn main() {
         let mut ctx = Ctx::new();
         if stored["case"]["family"] == "maps-durations" {
             check_durations(&syms_from_json(&stored["case"]["word"]), &mut ctx);
+        } else if stored["case"]["family"] == "maps-nth" {
+            check_nth(&syms_from_json(&stored["case"]["word"]), &fam.alpha, &mut ctx);
         } else if stored["case"]["family"] == "maps-inf" {
             check_inf(&syms_from_json(&stored["case"]["word"]), &mut ctx);
         } else if stored["case"]["family"] == "maps-nan-kinds" {
@@ -420,6 +466,8 @@ fn main() {
     }
     let mut total = explore_tree(&fam, run.threads);
     total.merge(maps_long(!run.quick(), run.threads, &fam.alpha));
+    let nth_words = all_words_upto(fam.alpha.len(), run.pick(4, 5));
+    total.merge(par_items(&nth_words, run.threads, |w, ctx| check_nth(w, &fam.alpha, ctx)));
     let td_words = all_words_upto(7, run.pick(3, 4));
     total.merge(par_items(&td_words, run.threads, |w, ctx| check_durations(w, ctx)));
     let inf_words = all_words_upto(inf_alpha().len(), run.pick(4, 5));
@@ -427,7 +475,7 @@ fn main() {
     let nan_words: Vec<Vec<u8>> = all_words_upto(fam.alpha.len(), run.pick(5, 6)).into_iter().filter(|w| w.contains(&0)).collect();
     total.merge(par_items(&nan_words, run.threads, |w, ctx| check_nan_kinds(w, &fam.alpha, ctx)));
     let meta = Meta {
-        rule: "history tree of every word over {null,-1,0,2}; at each word every operation (shift, vshift, vdiff, vpct_change with every lag in -len-3..=len+3 and i32::MIN/MAX and every fill; ffill/bfill/fill and their mask forms; vclip with every ordered and unordered pair of bounds incl. null; abs, vabs) on f64/f32/i32/Option<f64>/Option<i32>, consumed by plain safe iteration and compared element by element with the positional definition; length law; clip containment and idempotence; short words on every input back end; the same operations on long structured series (24 / 40 / 130 elements, null blocks and periodic nulls). Non-trivial = word with a non-null element. Also (DESIGN 5.15, 5.16): NaN kinds (maps-nan-kinds); infinities in every operation (maps-inf: a difference or ratio of two infinities is null). Round 9 (DESIGN 5.18): maps-durations - vclip on TimeDelta / Option<TimeDelta> words with plain and month-bearing elements and bounds, NaT bounds included, against the ordered-clip model.".into(),
+        rule: "history tree of every word over {null,-1,0,2}; at each word every operation (shift, vshift, vdiff, vpct_change with every lag in -len-3..=len+3 and i32::MIN/MAX and every fill; ffill/bfill/fill and their mask forms; vclip with every ordered and unordered pair of bounds incl. null; abs, vabs) on f64/f32/i32/Option<f64>/Option<i32>, consumed by plain safe iteration and compared element by element with the positional definition; length law; clip containment and idempotence; short words on every input back end; the same operations on long structured series (24 / 40 / 130 elements, null blocks and periodic nulls). Non-trivial = word with a non-null element. Also (DESIGN 5.15, 5.16): NaN kinds (maps-nan-kinds); infinities in every operation (maps-inf: a difference or ratio of two infinities is null). Round 9 (DESIGN 5.18): maps-durations - vclip on TimeDelta / Option<TimeDelta> words with plain and month-bearing elements and bounds, NaT bounds included, against the ordered-clip model. Round 11 (DESIGN 5.20): maps-nth - every lazy result advanced by nth(j) first: the items are those of the full result from position j on, the length announced afterwards is the number of items still to come.".into(),
         bounds: json!({"alphabet": json_word(&fam.alpha), "L": fam.max_len, "backend_L": fam.backend_len, "lags": "-len-3..=len+3, i32::MIN, i32::MAX", "fills": ["omitted", "null", 7]}),
         assumptions: vec!["vclip with lower > upper: only length and null preservation (DESIGN 5.6)".into(), "vdiff on numeric element types only (needs Sub), DESIGN 5.8".into()],
         exhaustive: true,
